@@ -46,3 +46,282 @@ package loadaware
 //@   modifies nothing
 //@   loop 1 invariant 0 <= $i && $i <= len(v)
 //@   loop 1 invariant forall j int :: 0 <= j && j < $i ==> v[j] == 0
+
+// ---- vectorizer: list -> vector, pointwise --------------------------------------------------------------------------
+
+//@ spec func resVal(name corev1.ResourceName, list corev1.ResourceList) int = has(list, name) ? (name == corev1.ResourceCPU ? val(list, name).MilliValue() : val(list, name).Value()) : 0
+
+//@ func (ResourceVectorizer).ToVec [C08]
+//@   ensures #len: len(result) == len(rv) && fresh(result)
+//@   ensures #pointwise: forall j int :: 0 <= j && j < len(rv) ==> result[j] == resVal(rv[j], list)
+//@   modifies nothing
+//@   loop 1 invariant 0 <= $i && $i <= len(rv) && len(vec) == len(rv) && fresh(vec)
+//@   loop 1 invariant forall j int :: 0 <= j && j < len(rv) ==> vec[j] == (j < $i ? resVal(rv[j], list) : 0)
+
+//@ func (ResourceVectorizer).ToFactorVec [C08]
+//@   ensures #len: len(result) == len(rv) && fresh(result)
+//@   ensures #pointwise: forall j int :: 0 <= j && j < len(rv) ==> result[j] == val(list, rv[j])
+//@   modifies nothing
+//@   loop 1 invariant 0 <= $i && $i <= len(rv) && len(vec) == len(rv) && fresh(vec)
+//@   loop 1 invariant forall j int :: 0 <= j && j < len(rv) ==> vec[j] == (j < $i ? val(list, rv[j]) : 0)
+
+//@ func (ResourceVectorizer).EmptyVec [C08]
+//@   ensures #len: len(result) == len(rv) && fresh(result)
+//@   ensures #zero: forall j int :: 0 <= j && j < len(rv) ==> result[j] == 0
+//@   modifies nothing
+
+//@ func (ResourceVector).Clone [C08]
+//@   ensures #nil: v == nil ==> result == nil
+//@   ensures #copy: v != nil ==> typeis(result, ResourceVector) && len(payload(result, ResourceVector)) == len(v) && fresh(payload(result, ResourceVector)) && (forall j int :: 0 <= j && j < len(v) ==> payload(result, ResourceVector)[j] == v[j])
+//@   modifies nothing
+//@   loop 1 invariant 0 <= $i && $i <= len(v) && len(copy) == len(v) && fresh(copy)
+//@   loop 1 invariant forall j int :: 0 <= j && j < $i ==> copy[j] == v[j]
+
+// ---- per-pod contributions to the cached sums -----------------------------------------------------------------------
+// The spec language has no struct literals: the pod's key NamespacedName{pod.Namespace, pod.Name} is named by a
+// universally quantified k with isKey(k, p).
+//@ spec func isKey(k NamespacedName, p *podAssignInfo) bool = k.Namespace == p.pod.ObjectMeta.Namespace && k.Name == p.pod.ObjectMeta.Name
+// extension.podPrioDefault is the C13 specification of extension.GetPodPriorityClassWithDefault (label, else priority value,
+// else derived from the QoS class); its contract needs the package-level priority ranges to be well-formed (prioCfgOK).
+//@ spec func isProd(p *podAssignInfo) bool = extension.podPrioDefault(p.pod) == extension.PriorityProd
+//@ spec func prioCfgOK() bool = extension.rangesOK() && extension.DefaultPriorityClass == extension.PriorityNone
+// the report does not (yet) reflect the pod: no usage reported | scheduled after the window the report covers | still inside its estimation deadline
+//@ spec func shouldEst(n *nodeInfo, p *podAssignInfo, k NamespacedName) bool = n.podUsages[k] == nil || n.updateTime - n.reportInterval < p.timestamp || (!p.estimatedDeadline.IsZero() && p.estimatedDeadline.After(n.updateTime))
+//@ spec func activeProd(n *nodeInfo, p *podAssignInfo, k NamespacedName) bool = isProd(p) && n.prodPods.Has(k)
+//@ spec func cUsage(n *nodeInfo, p *podAssignInfo, k NamespacedName, j int) int = activeProd(n, p, k) ? n.podUsages[k][j] : 0
+//@ spec func cEst(p *podAssignInfo, j int) int = p.estimated != nil ? p.estimated[j] : 0
+//@ spec func cNode(n *nodeInfo, p *podAssignInfo, k NamespacedName, j int) int = (p.estimated != nil && shouldEst(n, p, k)) ? dlt(p.estimated, n.podUsages[k], j) : 0
+//@ spec func cProd(n *nodeInfo, p *podAssignInfo, k NamespacedName, j int) int = (p.estimated != nil && isProd(p)) ? ((!activeProd(n, p, k) && n.podUsages[k] != nil) ? max0(p.estimated[j]) : (shouldEst(n, p, k) ? dlt(p.estimated, n.podUsages[k], j) : 0)) : 0
+
+// Shape of a nodeInfo that carries a metric report (established by AddOrUpdateNodeMetric): the four sums have one length
+// and are distinct objects, distinct from every reported usage vector; reported usages have that length; every pod the
+// report calls prod has a reported usage; the report's prodPods set is not one of the logging sets.
+//@ spec func vlen(n *nodeInfo) int = len(n.nodeDelta)
+//@ spec func isSum(n *nodeInfo, a int) bool = a == arr(n.prodUsage) || a == arr(n.nodeDelta) || a == arr(n.nodeEstimated) || a == arr(n.prodDelta)
+//@ spec func sumsOK(n *nodeInfo) bool = n != nil && n.prodUsage != nil && n.nodeDelta != nil && n.nodeEstimated != nil && n.prodDelta != nil && len(n.prodUsage) == vlen(n) && len(n.nodeEstimated) == vlen(n) && len(n.prodDelta) == vlen(n) && arr(n.prodUsage) != arr(n.nodeDelta) && arr(n.prodUsage) != arr(n.nodeEstimated) && arr(n.prodUsage) != arr(n.prodDelta) && arr(n.nodeDelta) != arr(n.nodeEstimated) && arr(n.nodeDelta) != arr(n.prodDelta) && arr(n.nodeEstimated) != arr(n.prodDelta)
+//@ spec func reportOK(n *nodeInfo) bool = (forall k NamespacedName :: has(n.podUsages, k) ==> n.podUsages[k] != nil && len(n.podUsages[k]) == vlen(n) && !isSum(n, arr(n.podUsages[k]))) && (forall k NamespacedName :: n.prodPods.Has(k) ==> has(n.podUsages, k)) && (n.prodPods == nil || (n.prodPods != n.nodeDeltaPods && n.prodPods != n.nodeEstimatedPods && n.prodPods != n.prodDeltaPods))
+//@ spec func podOK(n *nodeInfo, p *podAssignInfo) bool = p != nil && p.pod != nil && (p.estimated != nil ==> len(p.estimated) == vlen(n) && !isSum(n, arr(p.estimated)))
+
+//@ func (*nodeInfo).addPod [C08]
+//@   requires sumsOK(n) && reportOK(n) && podOK(n, pod) && prioCfgOK()
+//@   option nopanic all
+//@   ensures #prodUsage: forall k NamespacedName, j int :: isKey(k, pod) && 0 <= j && j < vlen(n) ==> n.prodUsage[j] == old(n.prodUsage[j]) + old(cUsage(n, pod, k, j))
+//@   ensures #nodeDelta: forall k NamespacedName, j int :: isKey(k, pod) && 0 <= j && j < vlen(n) ==> n.nodeDelta[j] == old(n.nodeDelta[j]) + old(cNode(n, pod, k, j))
+//@   ensures #nodeEstimated: forall j int :: 0 <= j && j < vlen(n) ==> n.nodeEstimated[j] == old(n.nodeEstimated[j]) + old(cEst(pod, j))
+//@   ensures #prodDelta: forall k NamespacedName, j int :: isKey(k, pod) && 0 <= j && j < vlen(n) ==> n.prodDelta[j] == old(n.prodDelta[j]) + old(cProd(n, pod, k, j))
+//@   modifies elems(n.prodUsage), elems(n.nodeDelta), elems(n.nodeEstimated), elems(n.prodDelta), contents(n.nodeDeltaPods), contents(n.nodeEstimatedPods), contents(n.prodDeltaPods)
+
+// deletePod subtracts exactly what addPod adds: the contributions are functions of the pod and of the report fields
+// (podUsages, prodPods, updateTime, reportInterval) only, and neither function writes those (modifies clauses), so
+// deletePod(p) after addPod(p) - in either order, with any other add/delete in between - restores the four sums.
+//@ func (*nodeInfo).deletePod [C08]
+//@   requires sumsOK(n) && reportOK(n) && podOK(n, pod) && prioCfgOK()
+//@   option nopanic all
+//@   ensures #prodUsage: forall k NamespacedName, j int :: isKey(k, pod) && 0 <= j && j < vlen(n) ==> n.prodUsage[j] == old(n.prodUsage[j]) - old(cUsage(n, pod, k, j))
+//@   ensures #nodeDelta: forall k NamespacedName, j int :: isKey(k, pod) && 0 <= j && j < vlen(n) ==> n.nodeDelta[j] == old(n.nodeDelta[j]) - old(cNode(n, pod, k, j))
+//@   ensures #nodeEstimated: forall j int :: 0 <= j && j < vlen(n) ==> n.nodeEstimated[j] == old(n.nodeEstimated[j]) - old(cEst(pod, j))
+//@   ensures #prodDelta: forall k NamespacedName, j int :: isKey(k, pod) && 0 <= j && j < vlen(n) ==> n.prodDelta[j] == old(n.prodDelta[j]) - old(cProd(n, pod, k, j))
+//@   modifies elems(n.prodUsage), elems(n.nodeDelta), elems(n.nodeEstimated), elems(n.prodDelta), contents(n.nodeDeltaPods), contents(n.nodeEstimatedPods), contents(n.prodDeltaPods)
+
+// update = take out the old contribution, put in the new one (both evaluated against the same, unchanged report);
+// updating a pod by itself is the identity on the four sums (#inverse: delete is the exact inverse of add).
+//@ func (*nodeInfo).updatePod [C08]
+//@   requires sumsOK(n) && reportOK(n) && podOK(n, oldPod) && podOK(n, newPod) && prioCfgOK()
+//@   ensures #prodUsage: forall k NamespacedName, l NamespacedName, j int :: isKey(k, oldPod) && isKey(l, newPod) && 0 <= j && j < vlen(n) ==> n.prodUsage[j] == old(n.prodUsage[j]) - old(cUsage(n, oldPod, k, j)) + old(cUsage(n, newPod, l, j))
+//@   ensures #nodeDelta: forall k NamespacedName, l NamespacedName, j int :: isKey(k, oldPod) && isKey(l, newPod) && 0 <= j && j < vlen(n) ==> n.nodeDelta[j] == old(n.nodeDelta[j]) - old(cNode(n, oldPod, k, j)) + old(cNode(n, newPod, l, j))
+//@   ensures #nodeEstimated: forall j int :: 0 <= j && j < vlen(n) ==> n.nodeEstimated[j] == old(n.nodeEstimated[j]) - old(cEst(oldPod, j)) + old(cEst(newPod, j))
+//@   ensures #prodDelta: forall k NamespacedName, l NamespacedName, j int :: isKey(k, oldPod) && isKey(l, newPod) && 0 <= j && j < vlen(n) ==> n.prodDelta[j] == old(n.prodDelta[j]) - old(cProd(n, oldPod, k, j)) + old(cProd(n, newPod, l, j))
+//@   ensures #inverse: oldPod == newPod ==> (forall j int :: 0 <= j && j < vlen(n) ==> n.prodUsage[j] == old(n.prodUsage[j]) && n.nodeDelta[j] == old(n.nodeDelta[j]) && n.nodeEstimated[j] == old(n.nodeEstimated[j]) && n.prodDelta[j] == old(n.prodDelta[j]))
+//@   ensures #calls: calls("deletePod") == 1 && calls("addPod") == 1
+//@   modifies elems(n.prodUsage), elems(n.nodeDelta), elems(n.nodeEstimated), elems(n.prodDelta), contents(n.nodeDeltaPods), contents(n.nodeEstimatedPods), contents(n.prodDeltaPods)
+
+// ---- threshold decision ----------------------------------------------------------------------------------------------
+// Resource j is within its threshold: not thresholded (0), nothing allocatable, or the utilisation percentage - rounded
+// half away from zero exactly like math.Round - is at most the configured percentage.
+//@ spec func withinThr(thr ResourceVector, est ResourceVector, alloc ResourceVector, j int) bool = thr[j] == 0 || alloc[j] == 0 || round(real(est[j]) / real(alloc[j]) * 100) <= real(thr[j])
+
+//@ func (*Plugin).filterNodeUsage [C08]
+//@   requires p != nil && len(estimatedUsed) >= len(usageThresholds) && len(allocatable) >= len(usageThresholds) && len(p.vectorizer) >= len(usageThresholds)
+//@   ensures #iff: result == nil <==> (forall j int :: 0 <= j && j < len(usageThresholds) ==> withinThr(usageThresholds, estimatedUsed, allocatable, j))
+//@   ensures #code: result != nil ==> result.code == fwktype.Unschedulable && fresh(result)
+//@   modifies nothing
+//@   option nopanic all
+//@   loop 1 invariant 0 <= $i && $i <= len(usageThresholds)
+//@   loop 1 invariant #prefix: forall j int :: 0 <= j && j < $i ==> withinThr(usageThresholds, estimatedUsed, allocatable, j)
+
+// Cycle-state protocol (assumed, environment): the only ResourceVectors ever boxed into a framework.StateData are the
+// error marker (length 0) and vectors made by the plugin's vectorizer; a cached one is never the accumulator passed in.
+//@ spec func boxedVecsOK(p *Plugin, acc ResourceVector) bool = forall c fwktype.StateData :: {len(payload(c, ResourceVector))} typeis(c, ResourceVector) ==> len(payload(c, ResourceVector)) == 0 || (len(payload(c, ResourceVector)) == len(p.vectorizer) && arr(payload(c, ResourceVector)) != arr(acc))
+
+// On error nothing is added; otherwise exactly one vector - the cached estimate of the incoming pod, or
+// vectorizer.ToFactorVec(estimator.EstimatePod(pod)) when nothing is cached - is added to the accumulator, and nothing else changes.
+//@ func (*Plugin).addEstimatedOfIncoming [C08]
+//@   requires p != nil && estimated != nil && len(estimated) == len(p.vectorizer) && boxedVecsOK(p, estimated)
+//@   ensures #err: result != nil ==> calls("Add") == 0 && (forall j int :: 0 <= j && j < len(estimated) ==> estimated[j] == old(estimated[j]))
+//@   ensures #added: result == nil ==> calls("Add") == 1 && calls("EstimatePod") <= 1 && calls("EstimatePod") == calls("ToFactorVec")
+//@   assert before call Add: arr($recv) == arr(estimated) && len($recv) == len(estimated) && len($arg0) == len(estimated)
+//@   modifies elems(estimated)
+
+// ---- cache events ----------------------------------------------------------------------------------------------------
+// Cached pods are well-formed with respect to the node's sums (estimates made by the same vectorizer, never one of the sums).
+//@ spec func podsOK(n *nodeInfo) bool = forall u types.UID :: {n.podInfos[u]} has(n.podInfos, u) ==> podOK(n, n.podInfos[u])
+//@ spec func isKey0(k NamespacedName, p *podAssignInfo) bool = p != nil ==> isKey(k, p)
+//@ spec func cUsage0(n *nodeInfo, p *podAssignInfo, k NamespacedName, j int) int = p == nil ? 0 : cUsage(n, p, k, j)
+//@ spec func cNode0(n *nodeInfo, p *podAssignInfo, k NamespacedName, j int) int = p == nil ? 0 : cNode(n, p, k, j)
+//@ spec func cEst0(p *podAssignInfo, j int) int = p == nil ? 0 : cEst(p, j)
+//@ spec func cProd0(n *nodeInfo, p *podAssignInfo, k NamespacedName, j int) int = p == nil ? 0 : cProd(n, p, k, j)
+//@ spec func sumsSame(n *nodeInfo) bool = forall j int :: 0 <= j && j < vlen(n) ==> n.prodUsage[j] == old(n.prodUsage[j]) && n.nodeDelta[j] == old(n.nodeDelta[j]) && n.nodeEstimated[j] == old(n.nodeEstimated[j]) && n.prodDelta[j] == old(n.prodDelta[j])
+
+// Assign / pod update: the pod is stored under its UID; with a metric report present the sums lose the contribution of the
+// entry previously stored under that UID (if any) and gain the contribution of the new entry - so a pod that is already
+// present is never counted twice; without a report, or on a deleted nodeInfo, the sums are untouched.
+//@ func (*nodeInfo).AddOrUpdatePod [C08]
+//@   requires n != nil && pod != nil && pod.pod != nil && prioCfgOK()
+//@   requires n.nodeMetric != nil ==> sumsOK(n) && reportOK(n) && podOK(n, pod) && podsOK(n)
+//@   ensures #deleted: old(n.deleted) ==> !result && calls("addPod") == 0 && calls("updatePod") == 0 && n.podInfos == old(n.podInfos) && (forall u types.UID :: has(n.podInfos, u) == old(has(n.podInfos, u)) && n.podInfos[u] == old(n.podInfos[u]))
+//@   ensures #stored: !old(n.deleted) ==> result && has(n.podInfos, pod.pod.ObjectMeta.UID) && n.podInfos[pod.pod.ObjectMeta.UID] == pod && (forall u types.UID :: u != pod.pod.ObjectMeta.UID ==> has(n.podInfos, u) == old(has(n.podInfos, u)) && n.podInfos[u] == old(n.podInfos[u]))
+//@   ensures #shape: n.nodeMetric != nil ==> sumsOK(n) && reportOK(n) && podsOK(n) && vlen(n) == old(vlen(n))
+//@   ensures #once: calls("addPod") + calls("updatePod") <= 1 && (calls("addPod") == 1 <==> !old(n.deleted) && n.nodeMetric != nil && old(n.podInfos[pod.pod.ObjectMeta.UID]) == nil) && (calls("updatePod") == 1 <==> !old(n.deleted) && n.nodeMetric != nil && old(n.podInfos[pod.pod.ObjectMeta.UID]) != nil)
+//@   ensures #nometric: old(n.deleted) || n.nodeMetric == nil ==> sumsSame(n)
+//@   ensures #prodUsage: !old(n.deleted) && n.nodeMetric != nil ==> (forall k NamespacedName, l NamespacedName, j int :: old(isKey0(k, n.podInfos[pod.pod.ObjectMeta.UID])) && isKey(l, pod) && 0 <= j && j < vlen(n) ==> n.prodUsage[j] == old(n.prodUsage[j]) - old(cUsage0(n, n.podInfos[pod.pod.ObjectMeta.UID], k, j)) + old(cUsage(n, pod, l, j)))
+//@   ensures #nodeDelta: !old(n.deleted) && n.nodeMetric != nil ==> (forall k NamespacedName, l NamespacedName, j int :: old(isKey0(k, n.podInfos[pod.pod.ObjectMeta.UID])) && isKey(l, pod) && 0 <= j && j < vlen(n) ==> n.nodeDelta[j] == old(n.nodeDelta[j]) - old(cNode0(n, n.podInfos[pod.pod.ObjectMeta.UID], k, j)) + old(cNode(n, pod, l, j)))
+//@   ensures #nodeEstimated: !old(n.deleted) && n.nodeMetric != nil ==> (forall j int :: 0 <= j && j < vlen(n) ==> n.nodeEstimated[j] == old(n.nodeEstimated[j]) - old(cEst0(n.podInfos[pod.pod.ObjectMeta.UID], j)) + old(cEst(pod, j)))
+//@   ensures #prodDelta: !old(n.deleted) && n.nodeMetric != nil ==> (forall k NamespacedName, l NamespacedName, j int :: old(isKey0(k, n.podInfos[pod.pod.ObjectMeta.UID])) && isKey(l, pod) && 0 <= j && j < vlen(n) ==> n.prodDelta[j] == old(n.prodDelta[j]) - old(cProd0(n, n.podInfos[pod.pod.ObjectMeta.UID], k, j)) + old(cProd(n, pod, l, j)))
+//@   modifies n.podInfos, contents(n.podInfos), elems(n.prodUsage), elems(n.nodeDelta), elems(n.nodeEstimated), elems(n.prodDelta), contents(n.nodeDeltaPods), contents(n.nodeEstimatedPods), contents(n.prodDeltaPods)
+
+// Un-assign / pod deletion: the entry stored under the UID is removed and - with a metric report present - exactly its
+// contribution is taken out of the sums (once); an unknown UID, a missing report or a deleted nodeInfo leave the sums alone.
+// The nodeInfo is marked deleted exactly when it has become empty (no report, no pods).
+//@ func (*nodeInfo).DeletePod [C08]
+//@   requires n != nil && p != nil && prioCfgOK()
+//@   requires n.nodeMetric != nil ==> sumsOK(n) && reportOK(n) && podsOK(n)
+//@   ensures #deleted: old(n.deleted) ==> n.deleted && calls("deletePod") == 0 && (forall u types.UID :: has(n.podInfos, u) == old(has(n.podInfos, u)) && n.podInfos[u] == old(n.podInfos[u]))
+//@   ensures #removed: !old(n.deleted) ==> (old(n.podInfos[uid]) != nil ==> !has(n.podInfos, uid)) && (forall u types.UID :: u != uid ==> has(n.podInfos, u) == old(has(n.podInfos, u)) && n.podInfos[u] == old(n.podInfos[u]))
+//@   ensures #shape: n.nodeMetric != nil ==> sumsOK(n) && reportOK(n) && podsOK(n) && vlen(n) == old(vlen(n))
+//@   ensures #once: calls("deletePod") <= 1 && (calls("deletePod") == 1 <==> !old(n.deleted) && n.nodeMetric != nil && old(n.podInfos[uid]) != nil)
+//@   ensures #nometric: old(n.deleted) || n.nodeMetric == nil ==> sumsSame(n)
+//@   ensures #prodUsage: !old(n.deleted) && n.nodeMetric != nil ==> (forall k NamespacedName, j int :: old(isKey0(k, n.podInfos[uid])) && 0 <= j && j < vlen(n) ==> n.prodUsage[j] == old(n.prodUsage[j]) - old(cUsage0(n, n.podInfos[uid], k, j)))
+//@   ensures #nodeDelta: !old(n.deleted) && n.nodeMetric != nil ==> (forall k NamespacedName, j int :: old(isKey0(k, n.podInfos[uid])) && 0 <= j && j < vlen(n) ==> n.nodeDelta[j] == old(n.nodeDelta[j]) - old(cNode0(n, n.podInfos[uid], k, j)))
+//@   ensures #nodeEstimated: !old(n.deleted) && n.nodeMetric != nil ==> (forall j int :: 0 <= j && j < vlen(n) ==> n.nodeEstimated[j] == old(n.nodeEstimated[j]) - old(cEst0(n.podInfos[uid], j)))
+//@   ensures #prodDelta: !old(n.deleted) && n.nodeMetric != nil ==> (forall k NamespacedName, j int :: old(isKey0(k, n.podInfos[uid])) && 0 <= j && j < vlen(n) ==> n.prodDelta[j] == old(n.prodDelta[j]) - old(cProd0(n, n.podInfos[uid], k, j)))
+//@   ensures #cleanup: n.deleted <==> (old(n.deleted) || (n.nodeMetric == nil && len(n.podInfos) == 0))
+//@   modifies n.deleted, contents(n.podInfos), elems(n.prodUsage), elems(n.nodeDelta), elems(n.nodeEstimated), elems(n.prodDelta), contents(n.nodeDeltaPods), contents(n.nodeEstimatedPods), contents(n.prodDeltaPods)
+
+// Metric report: the report fields are replaced, the three estimate sums are reset to fresh zero vectors (prodUsage to the
+// system usage or zero) and every cached pod - each exactly once, nothing else - is re-added through addPod against the new
+// report: the recomputation from scratch that defines what the incremental updates above must maintain.
+// keySlices() only names the heap family "elements of []NamespacedName" (the variadic argument slices of sets.Insert built in a
+// loop): nothing observable is kept in such slices.
+//@ spec func keySlices() []NamespacedName
+//@ spec func cachedOK(n *nodeInfo, p *podAssignCache) bool = forall u types.UID :: {n.podInfos[u]} has(n.podInfos, u) ==> n.podInfos[u] != nil && n.podInfos[u].pod != nil && (n.podInfos[u].estimated != nil ==> len(n.podInfos[u].estimated) == len(p.vectorizer) && allocated(n.podInfos[u].estimated))
+//@ spec func sysBase(p *podAssignCache, metric *slov1alpha1.NodeMetric, j int) int = (metric.Status.NodeMetric != nil && p.args.ProdUsageIncludeSys) ? resVal(p.vectorizer[j], metric.Status.NodeMetric.SystemUsage.ResourceList) : 0
+//@ spec func nodeUsageIs(n *nodeInfo, p *podAssignCache, metric *slov1alpha1.NodeMetric) bool = (metric.Status.NodeMetric == nil ==> n.nodeUsage == nil) && (metric.Status.NodeMetric != nil ==> n.nodeUsage != nil && len(n.nodeUsage) == len(p.vectorizer) && !isSum(n, arr(n.nodeUsage)) && (forall j int :: 0 <= j && j < len(p.vectorizer) ==> n.nodeUsage[j] == resVal(p.vectorizer[j], metric.Status.NodeMetric.NodeUsage.ResourceList)))
+//@ func (*nodeInfo).AddOrUpdateNodeMetric [C08]
+//@   requires n != nil && p != nil && p.args != nil && metric != nil && prioCfgOK() && cachedOK(n, p)
+//@   ensures #deleted: old(n.deleted) ==> !result && calls("addPod") == 0
+//@   ensures #shape: !old(n.deleted) ==> result && n.nodeMetric == metric && sumsOK(n) && reportOK(n) && podsOK(n) && vlen(n) == len(p.vectorizer)
+//@   ensures #reset: result ==> fresh(n.prodUsage) && fresh(n.nodeDelta) && fresh(n.nodeEstimated) && fresh(n.prodDelta) && fresh(n.nodeDeltaPods) && fresh(n.nodeEstimatedPods) && fresh(n.prodDeltaPods)
+// (#every + range semantics: every key of podInfos is visited once and each visit calls addPod; the engine has no cardinality
+// reasoning to turn "all keys seen" into calls == len, so the postcondition only states the upper bound)
+//@   ensures #readd: result ==> calls("addPod") <= len(n.podInfos)
+//@   ensures #empty: result && len(n.podInfos) == 0 ==> (forall j int :: 0 <= j && j < vlen(n) ==> n.nodeDelta[j] == 0 && n.nodeEstimated[j] == 0 && n.prodDelta[j] == 0)
+//@   ensures #nodeUsage: result ==> nodeUsageIs(n, p, metric)
+//@   ensures #agg: result ==> (forall a aggUsageKey :: {n.aggUsages[a]} n.aggUsages[a] != nil ==> len(n.aggUsages[a]) == len(p.vectorizer))
+//@   ensures #prodbase: result && len(n.podInfos) == 0 ==> (forall j int :: 0 <= j && j < vlen(n) ==> n.prodUsage[j] == sysBase(p, metric, j))
+//@   ensures #time: result ==> n.updateTime == (metric.Status.UpdateTime != nil ? metric.Status.UpdateTime.Time : old(n.updateTime)) && n.reportInterval == ((metric.Spec.CollectPolicy == nil || metric.Spec.CollectPolicy.ReportIntervalSeconds == nil) ? DefaultNodeMetricReportInterval : deref(metric.Spec.CollectPolicy.ReportIntervalSeconds) * 1000000000)
+//@   ensures #pods: n.podInfos == old(n.podInfos) && (forall u types.UID :: has(n.podInfos, u) == old(has(n.podInfos, u)) && n.podInfos[u] == old(n.podInfos[u]))
+//@   assert before call addPod: exists u types.UID :: has(n.podInfos, u) && n.podInfos[u] == $arg0
+//@   modifies n.nodeMetric, n.reportInterval, n.updateTime, n.podUsages, n.prodPods, n.nodeUsage, n.prodUsage, n.aggUsages, n.nodeDelta, n.prodDelta, n.nodeEstimated, n.nodeDeltaPods, n.prodDeltaPods, n.nodeEstimatedPods, allelems(keySlices())
+//@   loop 1 invariant #agg: aggUsages != nil && fresh(aggUsages) && (forall a aggUsageKey :: {aggUsages[a]} aggUsages[a] != nil ==> len(aggUsages[a]) == len(p.vectorizer))
+//@   loop 2 invariant #agg: aggUsages != nil && fresh(aggUsages) && (forall a aggUsageKey :: {aggUsages[a]} aggUsages[a] != nil ==> len(aggUsages[a]) == len(p.vectorizer))
+//@   loop 3 invariant #agg: aggUsages != nil && fresh(aggUsages) && (forall a aggUsageKey :: {aggUsages[a]} aggUsages[a] != nil ==> len(aggUsages[a]) == len(p.vectorizer))
+//@   loop 4 invariant #maps: podUsages != nil && prodPods != nil && fresh(podUsages) && fresh(prodPods)
+//@   loop 4 invariant #usages: forall k NamespacedName :: has(podUsages, k) ==> podUsages[k] != nil && len(podUsages[k]) == len(p.vectorizer) && fresh(podUsages[k]) && arr(podUsages[k]) != arr(prodUsage)
+//@   loop 4 invariant #prod: forall k NamespacedName :: prodPods.Has(k) ==> has(podUsages, k)
+//@   loop 5 invariant #shape: sumsOK(n) && reportOK(n) && podsOK(n) && vlen(n) == len(p.vectorizer)
+//@   loop 5 invariant #every: calls("addPod") == $n
+//@   loop 5 invariant #zero: $n == 0 ==> (forall j int :: 0 <= j && j < vlen(n) ==> n.nodeDelta[j] == 0 && n.nodeEstimated[j] == 0 && n.prodDelta[j] == 0 && n.prodUsage[j] == sysBase(p, metric, j))
+//@   loop 5 invariant #nodeUsage: nodeUsageIs(n, p, metric)
+
+// ---- what Filter / Score read ----------------------------------------------------------------------------------------
+// Estimated utilisation of the pods already on the node: prod pods -> prod usage + prod delta; otherwise the node usage
+// (plain, or the aggregated one of the requested type/duration, falling back to plain when duration 0 has no entry) + node
+// delta; when no node usage is known at all, the sum of the full estimates. a names the key aggUsageKey{type, duration}.
+//@ spec func baseVec(n *nodeInfo, t extension.AggregationType, a aggUsageKey) ResourceVector = t != "" ? ((n.aggUsages[a] == nil && a.Duration == 0) ? n.nodeUsage : n.aggUsages[a]) : n.nodeUsage
+//@ spec func existingEst(n *nodeInfo, prodPod bool, t extension.AggregationType, a aggUsageKey, j int) int = prodPod ? n.prodUsage[j] + n.prodDelta[j] : (baseVec(n, t, a) != nil ? baseVec(n, t, a)[j] + n.nodeDelta[j] : n.nodeEstimated[j])
+// Every nodeInfo carrying a report was filled by AddOrUpdateNodeMetric of this cache (its #shape / #nodeUsage postconditions).
+//@ spec func cacheOK(p *podAssignCache) bool = p != nil && (forall n *nodeInfo :: {n.nodeMetric} n != nil && n.nodeMetric != nil ==> sumsOK(n) && vlen(n) == len(p.vectorizer) && (n.nodeUsage != nil ==> len(n.nodeUsage) == len(p.vectorizer)) && (forall a aggUsageKey :: {n.aggUsages[a]} n.aggUsages[a] != nil ==> len(n.aggUsages[a]) == len(p.vectorizer)))
+
+// the error is a NotFound status error (apimachinery errors.NewNotFound), which errors.IsNotFound recognises
+//@ spec func isNF(e error) bool = typeis(e, *errors.StatusError) && g_notFoundErr(payload(e, *errors.StatusError))
+//@ func (*podAssignCache).GetNodeMetricAndEstimatedOfExisting [C08]
+//@   requires cacheOK(p)
+//@   ensures #notfound: result3 != nil ==> isNF(result3) && result0 == nil && result1 == nil
+//@   ensures #found: result3 == nil ==> result0 != nil && fresh(result1) && len(result1) == len(p.vectorizer) && (exists n *nodeInfo :: n != nil && n.nodeMetric == result0 && (forall a aggUsageKey, j int :: a.Type == aggregationType && a.Duration == aggregatedDuration.Duration && 0 <= j && j < len(p.vectorizer) ==> result1[j] == existingEst(n, prodPod, aggregationType, a, j)))
+//@   modifies nothing
+
+// ---- Filter ----------------------------------------------------------------------------------------------------------
+// (bodies of apis/extension are loaded so that the small annotation decoders are inlined)
+//@ uses apis/extension
+//@ spec func isDS(refs []metav1.OwnerReference) bool = exists i int :: 0 <= i && i < len(refs) && refs[i].Kind == "DaemonSet"
+//@ func isDaemonSetPod [C08]
+//@   ensures #iff: result <==> isDS(ownerRefList)
+//@   modifies nothing
+//@   loop 1 invariant 0 <= $i && $i <= len(ownerRefList)
+//@   loop 1 invariant forall i int :: 0 <= i && i < $i ==> ownerRefList[i].Kind != "DaemonSet"
+
+// A report without update time is expired; with a non-positive expiration setting a timestamped report never expires
+// (the comparison with the wall clock itself is environment: time.Since is an arbitrary value).
+//@ func isNodeMetricExpired [C08]
+//@   ensures #missing: nodeMetric == nil || nodeMetric.Status.UpdateTime == nil ==> result
+//@   ensures #never: nodeMetric != nil && nodeMetric.Status.UpdateTime != nil && nodeMetricExpirationSeconds <= 0 ==> !result
+//@   modifies nothing
+
+// Threshold vectors of a profile are unset (nil) or made by the vectorizer (its length).
+//@ spec func thrOK(v ResourceVector, rv ResourceVectorizer) bool = v == nil || len(v) == len(rv)
+//@ spec func profOK(f *usageThresholdsFilterProfile, rv ResourceVectorizer) bool = f != nil && thrOK(f.UsageThresholds, rv) && thrOK(f.ProdUsageThresholds, rv) && (f.AggregatedUsage != nil ==> thrOK(f.AggregatedUsage.UsageThresholds, rv))
+//@ func (*usageThresholdsFilterProfile).generateUsageThresholdsFilterProfile [C08]
+//@   requires profOK(tfp, vectorizer) && node != nil
+//@   ensures #shape: profOK(result, vectorizer)
+//@   ensures #same: result == tfp || fresh(result)
+//@   modifies nothing
+
+// The two configuration switches for nodes whose report is too old.
+//@ spec func checkExpiry(p *Plugin) bool = p.args.FilterExpiredNodeMetrics != nil && deref(p.args.FilterExpiredNodeMetrics) && p.args.NodeMetricExpirationSeconds != nil
+//@ spec func rejectExpired(p *Plugin) bool = checkExpiry(p) && p.args.EnableScheduleWhenNodeMetricsExpired != nil && !deref(p.args.EnableScheduleWhenNodeMetricsExpired)
+
+// Filter. Statuses are created here only for: no node (Error), a cache error other than NotFound (Error) and an expired report
+// when both switches say so (Unschedulable); every other verdict is the one of filterNodeUsage, called at most once, on the
+// vector returned by GetNodeMetricAndEstimatedOfExisting (#found: usage + deltas of the pods already there) after
+// addEstimatedOfIncoming added the incoming pod's estimate to it, with the thresholds of the selected profile and the
+// vectorised allocatable. Daemon-set pods pass without any look-up; a missing metric (NotFound) passes.
+//@ func (*Plugin).Filter [C08]
+//@   requires p != nil && p.args != nil && p.podAssignCache != nil && cacheOK(p.podAssignCache) && pod != nil && prioCfgOK()
+//@   requires profOK(p.filterProfile, p.vectorizer) && len(p.podAssignCache.vectorizer) == len(p.vectorizer)
+//@   requires forall c fwktype.StateData :: {len(payload(c, ResourceVector))} typeis(c, ResourceVector) ==> len(payload(c, ResourceVector)) == 0 || (len(payload(c, ResourceVector)) == len(p.vectorizer) && allocated(payload(c, ResourceVector)))
+//@   ensures #nonode: nodeInfo.Node() == nil ==> result != nil && result.code == fwktype.Error
+//@   ensures #daemonset: nodeInfo.Node() != nil && isDS(pod.ObjectMeta.OwnerReferences) ==> result == nil && calls("GetNodeMetricAndEstimatedOfExisting") == 0 && calls("filterNodeUsage") == 0
+//@   ensures #codes: result != nil ==> (result.code == fwktype.Error || result.code == fwktype.Unschedulable) && fresh(result)
+//@   ensures #once: calls("filterNodeUsage") <= 1 && calls("NewStatus") <= 1 && calls("filterNodeUsage") + calls("NewStatus") <= 1
+//@   ensures #verdict: result != nil && calls("NewStatus") == 0 ==> calls("filterNodeUsage") == 1
+//@   ensures #expired-pass: !rejectExpired(p) && result != nil && result.code == fwktype.Unschedulable ==> calls("filterNodeUsage") == 1
+//@   ensures #expiry-off: !checkExpiry(p) ==> calls("isNodeMetricExpired") == 0
+// (call ordinals are the engine's: #1 = load_aware.go:203 expired report, #2 = :198 cache error, #3 = :153 no node - see the obligation names)
+//@   assert before call NewStatus#1: $arg0 == fwktype.Unschedulable && rejectExpired(p) && calls("isNodeMetricExpired") == 1
+//@   assert before call NewStatus#2: $arg0 == fwktype.Error && err != nil && !isNF(err)
+//@   assert before call NewStatus#3: $arg0 == fwktype.Error && node == nil
+//@   modifies inferred
+//@   assert before call GetNodeMetricAndEstimatedOfExisting: !isDS(pod.ObjectMeta.OwnerReferences) && $arg0 == node.ObjectMeta.Name
+//@   assert before call addEstimatedOfIncoming: arr($arg0) == arr(estimated) && nodeMetric != nil && nodeMetric.Status.NodeMetric != nil && calls("GetNodeMetricAndEstimatedOfExisting") == 1
+//@   assert before call filterNodeUsage: arr($arg2) == arr(usageThresholds) && len($arg2) == len(usageThresholds) && arr($arg3) == arr(estimated) && arr($arg4) == arr(allocatable) && calls("addEstimatedOfIncoming") == 1 && calls("ToVec") == 1
+//@   assert before call filterNodeUsage: usageThresholds == (prodPod ? filterProfile.ProdUsageThresholds : (filterProfile.AggregatedUsage != nil ? filterProfile.AggregatedUsage.UsageThresholds : filterProfile.UsageThresholds)) && $arg5 == (!prodPod && filterProfile.AggregatedUsage != nil)
+
+// Metric deletion: only drops the report (the sums become unobservable: GetNodeMetricAndEstimatedOfExisting answers NotFound,
+// pod events stop touching them, and the next report rebuilds them from scratch); pods stay cached.
+//@ func (*nodeInfo).DeleteNodeMetric [C08]
+//@   requires n != nil && p != nil
+//@   ensures #deleted: old(n.deleted) ==> n.deleted && n.nodeMetric == old(n.nodeMetric)
+//@   ensures #dropped: !old(n.deleted) ==> n.nodeMetric == nil
+//@   ensures #cleanup: n.deleted <==> (old(n.deleted) || len(n.podInfos) == 0)
+//@   ensures #sums: sumsSame(n)
+//@   modifies n.nodeMetric, n.deleted
